@@ -1,7 +1,7 @@
 """Contracts for cincoconfig/support.py and the dotted-path accessors of Config (C12, C16)."""
 
 ADOPT = ["Config._parent@*", "Config._key@*", "Config._container@*"]
-KEYFILE_STATE = ["fs", "rand_ctr", "fresh", "ncalls", "Config._Config__keyfile@*", "KeyFile._KeyFile__key@*", "KeyFile._KeyFile__refcount@*"]
+KEYFILE_STATE = ["fs", "rand_ctr", "fresh", "ncalls", "Config._Config__keyfile@*", "Config._Config__default_keyfile@*", "KeyFile._KeyFile__key@*", "KeyFile._KeyFile__refcount@*"]
 NODOT = "not ('.' in key)"
 
 
@@ -25,6 +25,24 @@ def register(reg):
       ensures={"C03+C13+C06.only-key-file-slots-change": "heap_unchanged('Config._Config__keyfile')",
                "C03.not-a-configuration-changes-nothing": "implies(not typeis(other, 'ref:Config'), heap_unchanged())"},
       raises={}, noraise=True)
+    # ---------------------------------------------------------------- which key file a configuration uses (C03)
+    OWN = "old(self._Config__keyfile)"
+    SLOTS = "heap_unchanged('Config._Config__default_keyfile') and fs_same()"
+    C("core:Config._keyfile", params={}, returns="ref:KeyFile", modifies=["Config._Config__default_keyfile@*", "fresh", "ncalls"], noraise=True,
+      ensures={
+          "C03.a-key-file-named-here-is-used": "implies(truthy(%s), result is %s)" % (OWN, OWN),
+          "C03.else-a-key-file-named-on-the-parent": "implies(not truthy(%s) and truthy(self._parent) and truthy(old(self._parent._Config__keyfile)), result is old(self._parent._Config__keyfile))" % OWN,
+          "C03.the-default-key-file-only-without-parent-and-name": "implies(not truthy(%s) and not truthy(self._parent), result is self._Config__default_keyfile"
+                                                                   " and ((truthy(old(self._Config__default_keyfile)) and result is old(self._Config__default_keyfile))"
+                                                                   " or (not truthy(old(self._Config__default_keyfile)) and fresh(result) and result.filename == default_keyfile_path())))" % OWN,
+          "C03.looking-up-never-names-a-key-file": SLOTS,
+      })
+    C("core:Config._key_filename", params={}, returns="str", modifies=["fresh", "ncalls"], noraise=True,
+      ensures={
+          "C03.the-name-given-here": "implies(truthy(self._Config__keyfile), result == self._Config__keyfile.filename)",
+          "C03.else-the-default-path-at-the-root": "implies(not truthy(self._Config__keyfile) and not truthy(self._parent), result == default_keyfile_path())",
+          "C13.read-only": "heap_unchanged() and fs_same()",
+      })
     C("support:is_value_defined", params={"config": "ref:Config", "key": "str"}, returns="bool", modifies=["fresh", "ncalls"],
       ensures={
           "C12.defined-means-not-marked-default": "implies(%s, result == (not has(config._default_value_keys, key)))" % NODOT,
